@@ -20,7 +20,7 @@ ASSUME = ["an identifier is acceptable when load or generation raises; emitted c
           "known findings are keyed by (identifier, role, backend): the first failing obligation of that combination"]
 
 INTERNAL = ["dt", "t", "time", "states", "parameters", "values", "shape", "missing_variables", "numpy", "math", "jax",
-            "dx_dt_linearized", "_values_0", "_values_1", "state", "parameter", "monitor", "missing", "state_index",
+            "dx_dt_linearized", "_values_0", "_values_1", "_values_2", "_values_3", "_values_4", "_values_10", "state", "parameter", "monitor", "missing", "state_index",
             "parameter_index", "monitor_index", "rhs", "monitor_values", "init_state_values", "explicit_euler", "key", "value",
             "name", "NUM_STATES", "NUM_PARAMS", "len", "float", "int", "M_PI", "M_E", "strcmp", "fabs", "pow", "fmod", "main",
             "true", "false", "is_true", "xfalse", "True_", "where", "zeros", "logical_and", "floor", "exp_"]
@@ -80,7 +80,7 @@ def tasks(tier, seed):
         seen.add(ident)
         for role in ROLES:
             text = model_for(ident, role)
-            if tier == "quick" and ident not in INTERNAL[:14]:
+            if tier == "quick" and ident not in INTERNAL[:18]:
                 bs = [backends[n % 3]]
                 n += 1
             else:
@@ -90,6 +90,13 @@ def tasks(tier, seed):
     for k, (A, B) in enumerate(PAIRS):
         for b in (backends if tier != "quick" else [backends[k % 3], backends[(k + 1) % 3]]):
             out.append({"family": "PAIR", "id": f"{A}+{B}", "text": pair_model(A, B), "opts": {"ident": A, "role": "pair", "backend": b}})
+    # a renamed word that nothing depends on (monitored only) next to its renamed form, generated with remove_unused=True
+    for k, A in enumerate(["lambda", "in", "numpy", "double", "len", "fabs"]):
+        text = (f"parameters(a=0.5, {A}_=2.0)\nstates(x=1.0, y=3.0)\n{A} = a*x + 7\nuse = {A}_*x\n"
+                f"dx_dt = -use + a\ndy_dt = x - y*{A}_\n")
+        for b in (backends if tier != "quick" else [backends[k % 3], "numpy"]):
+            out.append({"family": "PAIR", "id": f"{A}+{A}_|remove_unused", "text": text,
+                        "opts": {"ident": A, "role": "pair", "backend": b, "remove_unused": True}})
     return out + witness_tasks(PROP)
 
 
@@ -120,16 +127,17 @@ def work(task):
         return prog.result()
     backend = o["backend"]
     schemes = ["explicit_euler", "generalized_rush_larsen"]
+    kw = {"remove_unused": True} if o.get("remove_unused") else {}
     try:
         if backend == "c":
-            pipeline.gen_c(ode, schemes=schemes)
+            pipeline.gen_c(ode, schemes=schemes, **kw)
         else:
-            pipeline.gen_py(ode, backend=backend, schemes=schemes)
+            pipeline.gen_py(ode, backend=backend, schemes=schemes, **kw)
     except Exception as e:
         prog.fact("rejected-at-generation", True, "", "")
         prog.notes.append(f"generation raised {type(e).__name__}")
         return prog.result()
-    view = checks.make_view(prog, ode, backend, schemes=schemes)
+    view = checks.make_view(prog, ode, backend, schemes=schemes, **kw)
     if view is None:
         return prog.result()
     prog.nontrivial = True
